@@ -466,6 +466,50 @@ def try_builtin(it, callee, args):
             return len(v.fields)
         if name == "is_empty":
             return len(v.fields) == 0
+        if name in ("dedup_by", "dedup_by_key", "dedup", "retain", "retain_mut"):
+            from interp import Cell as _Cell
+            if name in ("retain", "retain_mut"):
+                cl = _Cell(args[1])
+                keep = []
+                for i in range(len(v.fields)):
+                    if it.decide(it.call_closure(cl, [Ref(r.cell, r.path + (i,))])):
+                        keep.append(i)
+                v.fields[:] = [v.fields[i] for i in keep]
+                return UNIT
+            # std: walks the vector once; `same_bucket(&mut current, &mut last kept)` true => current is dropped
+            cl = _Cell(args[1]) if name != "dedup" else None
+            kept = []
+            for i in range(len(v.fields)):
+                if not kept:
+                    kept.append(i)
+                    continue
+                cur, prev = Ref(r.cell, r.path + (i,)), Ref(r.cell, r.path + (kept[-1],))
+                if name == "dedup_by":
+                    same = it.call_closure(cl, [cur, prev])
+                elif name == "dedup_by_key":
+                    ka, kb = it.call_closure(cl, [cur]), it.call_closure(cl, [prev])
+                    same = it.dom.cmp("Eq", ka, kb) if isinstance(ka, Num) else (ka == kb)
+                else:
+                    same = try_builtin(it, "<T as PartialEq>::eq", [cur, prev])
+                if not it.decide(same):
+                    kept.append(i)
+            v.fields[:] = [v.fields[i] for i in kept]
+            return UNIT
+        if name == "clear":
+            del v.fields[:]
+            return UNIT
+        if name == "insert":
+            if args[1] > len(v.fields):
+                raise Panic("insertion index out of bounds")
+            v.fields.insert(args[1], args[2])
+            return UNIT
+        if name == "remove":
+            if args[1] >= len(v.fields):
+                raise Panic("removal index out of bounds")
+            return v.fields.pop(args[1])
+        if name == "last":
+            n_ = len(v.fields)
+            return Opt(Ref(r.cell, r.path + (n_ - 1,)), True) if n_ else Opt(None, False)
         raise Unsupported("Vec method " + name)
     # ---- Option
     m = re.match(r"^(?:std::option::)?Option::<(.*)>::(\w+)(?:::<.*>)?$", c, re.S)
